@@ -1,0 +1,52 @@
+// SPDX-FileCopyrightText: 2026 The Pion community <https://pion.ly>
+// SPDX-License-Identifier: MIT
+
+//go:build verif
+
+package ice
+
+import (
+	"context"
+	"net"
+	"net/netip"
+	"sync/atomic"
+
+	"github.com/pion/logging"
+)
+
+// VerifActiveTCPSeam replaces the operating-system calls of an active TCP candidate (choice of the local
+// address and the dial) by the deterministic simulator's.
+type VerifActiveTCPSeam struct {
+	LocalAddr func(address string) (*net.TCPAddr, error)
+	Dial      func(ctx context.Context, local *net.TCPAddr, remote string) (net.Conn, error)
+}
+
+var verifActiveTCPSeam atomic.Pointer[VerifActiveTCPSeam] //nolint:gochecknoglobals
+
+// VerifSetActiveTCPSeam installs (or, with nil, removes) the seam.
+func VerifSetActiveTCPSeam(s *VerifActiveTCPSeam) { verifActiveTCPSeam.Store(s) }
+
+// VerifNewActiveTCPConn builds the packet connection of an active TCP candidate.
+func VerifNewActiveTCPConn(
+	ctx context.Context, localAddress string, remoteAddress netip.AddrPort, log logging.LeveledLogger,
+) net.PacketConn {
+	return newActiveTCPConn(ctx, localAddress, remoteAddress, log)
+}
+
+func activeTCPLocalAddr(address string) (*net.TCPAddr, error) {
+	if s := verifActiveTCPSeam.Load(); s != nil && s.LocalAddr != nil {
+		return s.LocalAddr(address)
+	}
+
+	return getTCPAddrOnInterface(address)
+}
+
+func activeTCPDial(ctx context.Context, dialer *net.Dialer, remote string) (net.Conn, error) {
+	if s := verifActiveTCPSeam.Load(); s != nil && s.Dial != nil {
+		local, _ := dialer.LocalAddr.(*net.TCPAddr)
+
+		return s.Dial(ctx, local, remote)
+	}
+
+	return dialer.DialContext(ctx, "tcp", remote)
+}
